@@ -263,7 +263,7 @@ def st_conf():
 
 def st_pp_value():
     leaf = st.one_of(st.none(), st.booleans(), st.integers(-999, 10**6), st.floats(-10, 10, allow_nan=False),
-                     st.text("abc xyz", max_size=8))
+                     st.text("abc xyz", max_size=8), st.text("ab \r\x0c\x1c\x85\u2028\t", min_size=1, max_size=5))
     return st.recursive(leaf, lambda c: st.lists(c, max_size=4).map(lambda x: ["l", x]) |
                         st.lists(st.tuples(st.text("kq", min_size=1, max_size=3), c), max_size=4,
                                  unique_by=lambda kv: kv[0]).map(lambda kv: ["d", [list(p) for p in kv]]), max_leaves=10) | \
@@ -284,6 +284,12 @@ def st_obj(draw):
                                   "missing": ["?", "error"], "tuples": True}}
             for r in case["records"]:
                 r[0] = draw(st.sampled_from([1, 2, "k", 7, None]))
+        if case["records"] and draw(st.integers(0, 3)) == 0:
+            # cell values with characters that str.splitlines() treats as line boundaries (the table does not)
+            r = draw(st.sampled_from(case["records"]))
+            idxs = [i for i, fn in enumerate(case["fields"]) if fn not in case["enums"]]
+            if idxs:
+                r[draw(st.sampled_from(idxs))] = draw(st.sampled_from(["a\rb", "x\x0cy", "p\u2028q", "m\x85n", "\x1c", "a\r\nb"]))
         return {"k": "table", "case": case}
     if k == "record":
         nf = draw(st.integers(1, 4))
@@ -299,7 +305,9 @@ def st_obj(draw):
             return {"k": "ghist", "gen": gen}
         return {"k": "ghist", "which": draw(st.integers(0, 1))}
     if k == "hdoc":
-        return {"k": "hdoc", "target": draw(st.sampled_from(["Sample", "sample_obj", "sample_method", "caller_obj", "Caller"])),
+        return {"k": "hdoc", "target": draw(st.sampled_from(["Sample", "sample_obj", "sample_method", "caller_obj", "Caller", "caller_needs_basic", "caller_plain",
+                                                "Service", "service_obj", "service_fetch", "service_drop", "service_listing",
+                                                "service_store"])),
                 "level": draw(st.integers(1, 2))}
     return {"k": "confreport"}
 
